@@ -38,12 +38,15 @@ func specLinesText(lines []string, i int) string {
 //@ channel rootChan(n)
 //@   requires nonnil [C12]: n != nil && n.hierarchy == 1
 
+// gcRecv: the grown roots the goroutine under verification has received (appended by every successful receive)
+//@ ghost var gcRecv []*Node
 // g: the grower whose workers send on the channel (nil: the no-op grower, nothing is grown or validated)
 //@ channel grownChan(n)
 //@   subject g *defaultGrowerSimple
 //@   requires nonnil [C12]: n != nil && n.hierarchy == 1
 //@   requires grown [C01]: g != nil ==> grown(g.lastNodeFormat, g.intermedialNodeFormat, n)
 //@   requires valid [C07,C09]: g != nil && g.enabledValidation ==> validated(n)
+//@   receives gcRecv := ok ? gcRecv ++ seqof(n) : gcRecv
 
 // errSent: some goroutine has reported an error on a stage's error channel
 //@ ghost var errSent bool
@@ -60,13 +63,13 @@ func specLinesText(lines []string, i int) string {
 //@   carries errc: errChan
 //@   carries result0: blockChan
 //@   carries result1: errChan
-//@   modifies bufio.Scanner.pos, bufio.Scanner.failed, errSent, splSent, ctxDoneSeen, splSharp, splCutOK
+//@   modifies bufio.Scanner.pos, bufio.Scanner.failed, errSent, splSent, ctxDoneSeen, gcRecv, splSharp, splCutOK
 // the splitter goroutine, for runs in which it saw no cancellation: a failed scan is reported on the error channel (C14);
 // otherwise the blocks sent, concatenated, are the input lines (each with its newline): nothing is dropped or reordered
 // before the generator stage (C02, C15)
 //@ closure gtree.split#1
 //@   requires nn: ctx != nil && sc != nil && sc.pos == 0 && !sc.failed
-//@   modifies bufio.Scanner.pos, bufio.Scanner.failed, errSent, splSent, ctxDoneSeen, splSharp, splCutOK
+//@   modifies bufio.Scanner.pos, bufio.Scanner.failed, errSent, splSent, ctxDoneSeen, gcRecv, splSharp, splCutOK
 //@   after isRootBlockBeginning: splCutOK := splCutOK && (result == (len(arg0) > 0 && (arg0[0] == '#' || (!splSharp && (arg0[0] == '-' || arg0[0] == '*' || arg0[0] == '+')))))
 //@   after isRootBlockBeginning: splSharp := splSharp || (len(arg0) > 0 && arg0[0] == '#')
 //@   ensures cuts [C02,C15]: old(splCutOK) && !old(splSharp) ==> splCutOK
@@ -95,10 +98,10 @@ func specLinesText(lines []string, i int) string {
 //@   carries errc: errChan
 //@   carries result0: rootChan
 //@   carries result1: errChan
-//@   modifies Node.children, Node.parent, list.List.view, list.Element.backOf, counter.n, bufio.Scanner.pos, bufio.Scanner.failed, markdown.Parser.isSharpRoot, markdown.Parser.spaces, markdown.Parser.sep, errSent, ctxDoneSeen, lnNodes, lnRootCount, lnRejected
+//@   modifies Node.children, Node.parent, list.List.view, list.Element.backOf, counter.n, bufio.Scanner.pos, bufio.Scanner.failed, markdown.Parser.isSharpRoot, markdown.Parser.spaces, markdown.Parser.sep, errSent, ctxDoneSeen, gcRecv, lnNodes, lnRootCount, lnRejected
 //@ closure gtree.rootGeneratorPipeline.generate#1
 //@   requires nn: rg != nil && rg.nodeGenerator != nil && rg.nodeGenerator.parser != nil && md.parserOK(rg.nodeGenerator.parser) && ctx != nil
-//@   modifies Node.children, Node.parent, list.List.view, list.Element.backOf, counter.n, bufio.Scanner.pos, bufio.Scanner.failed, markdown.Parser.isSharpRoot, markdown.Parser.spaces, markdown.Parser.sep, errSent, ctxDoneSeen, lnNodes, lnRootCount, lnRejected
+//@   modifies Node.children, Node.parent, list.List.view, list.Element.backOf, counter.n, bufio.Scanner.pos, bufio.Scanner.failed, markdown.Parser.isSharpRoot, markdown.Parser.spaces, markdown.Parser.sep, errSent, ctxDoneSeen, gcRecv, lnNodes, lnRootCount, lnRejected
 //@ loop gtree.rootGeneratorPipeline.generate#1#1
 //@   invariant parser: md.parserOK(rg.nodeGenerator.parser)
 //@ func gtree.rootGeneratorPipeline.worker
@@ -107,7 +110,7 @@ func specLinesText(lines []string, i int) string {
 //@   carries blocks: blockChan
 //@   carries rootc: rootChan
 //@   carries errc: errChan
-//@   modifies Node.children, Node.parent, list.List.view, list.Element.backOf, counter.n, bufio.Scanner.pos, bufio.Scanner.failed, markdown.Parser.isSharpRoot, markdown.Parser.spaces, markdown.Parser.sep, errSent, ctxDoneSeen, lnNodes, lnRootCount, lnRejected
+//@   modifies Node.children, Node.parent, list.List.view, list.Element.backOf, counter.n, bufio.Scanner.pos, bufio.Scanner.failed, markdown.Parser.isSharpRoot, markdown.Parser.spaces, markdown.Parser.sep, errSent, ctxDoneSeen, gcRecv, lnNodes, lnRootCount, lnRejected
 //@   after NewScanner: lnNodes := emptyseq(lnNodes)
 //@   after NewScanner: lnRootCount := 0
 //@   after generate: lnRejected := lnRejected || result1 != nil
@@ -139,16 +142,16 @@ func specLinesText(lines []string, i int) string {
 //@   carries errc: errChan
 //@   carries result0: grownChan(dg.defaultGrowerSimple)
 //@   carries result1: errChan
-//@   modifies Node.brnch.value, Node.brnch.path, errSent, ctxDoneSeen
+//@   modifies Node.brnch.value, Node.brnch.path, errSent, ctxDoneSeen, gcRecv
 //@ closure gtree.defaultGrowerPipeline.grow#1
 //@   requires nn: dg != nil && dg.defaultGrowerSimple != nil && ctx != nil
-//@   modifies Node.brnch.value, Node.brnch.path, errSent, ctxDoneSeen
+//@   modifies Node.brnch.value, Node.brnch.path, errSent, ctxDoneSeen, gcRecv
 //@ func gtree.defaultGrowerPipeline.worker
 //@   requires nn: dg != nil && dg.defaultGrowerSimple != nil && ctx != nil && wg != nil
 //@   carries roots: rootChan
 //@   carries nodes: grownChan(dg.defaultGrowerSimple)
 //@   carries errc: errChan
-//@   modifies Node.brnch.value, Node.brnch.path, errSent, ctxDoneSeen
+//@   modifies Node.brnch.value, Node.brnch.path, errSent, ctxDoneSeen, gcRecv
 //@ func gtree.nopGrowerPipeline.grow
 //@   requires nn: ctx != nil
 //@   requires live [C02]: !ctxCancelled[ctx]
@@ -157,10 +160,10 @@ func specLinesText(lines []string, i int) string {
 //@   carries errc: errChan
 //@   carries result0: grownChan(nil)
 //@   carries result1: errChan
-//@   modifies errSent, ctxDoneSeen
+//@   modifies errSent, ctxDoneSeen, gcRecv
 //@ closure gtree.nopGrowerPipeline.grow#1
 //@   requires nn: ctx != nil
-//@   modifies errSent, ctxDoneSeen
+//@   modifies errSent, ctxDoneSeen, gcRecv
 
 // ---- spreader stage (pipeline_tree_spreader.go)
 // text: the workers print one root at a time (the lock is not modelled); a writer error of spreadBranch must be reported
@@ -171,18 +174,46 @@ func specLinesText(lines []string, i int) string {
 //@   carries roots: grownChan($g)
 //@   carries errc: errChan
 //@   carries result0: errChan
-//@   modifies out, wfail, defaultSpreaderSimple.w, errSent, ctxDoneSeen
+//@   modifies out, wfail, defaultSpreaderSimple.w, errSent, ctxDoneSeen, gcRecv
 //@ closure gtree.defaultSpreaderPipeline.spread#1
 //@   requires nn: ds != nil && ds.defaultSpreaderSimple != nil && ctx != nil
-//@   modifies out, wfail, defaultSpreaderSimple.w, errSent, ctxDoneSeen
+//@   modifies out, wfail, defaultSpreaderSimple.w, errSent, ctxDoneSeen, gcRecv
+// What a text-spreader worker has written is, as long as no write was refused, the text of exactly the roots it received,
+// in that order (C01, per goroutine: what other workers write to the same writer in between is outside this model; the
+// mutex that keeps whole roots together is not modelled).
+// specRawRange: the text of roots[k..i)
+//@ spec gtree.specRawRange
+//@   decreases i
+func specRawRange(roots []*Node, k int, i int) string {
+	if i <= k || i > len(roots) || k < 0 {
+		return ""
+	}
+	return specRawRange(roots, k, i-1) + specRaw(roots[i-1])
+}
+
+//@ lemma gtree.lemmaRawRangePrefix
+//@   nowf
+//@   requires rng: 0 <= k && 0 <= i && i <= len(roots)
+//@   ensures eq: specRawRange(push(roots, r), k, i) == specRawRange(roots, k, i)
+//@   trigger specRawRange(push(roots, r), k, i)
+//@   decreases i
+func lemmaRawRangePrefix(roots []*Node, r *Node, k int, i int) {
+	if i > k {
+		lemmaRawRangePrefix(roots, r, k, i-1)
+	}
+}
+
 //@ func gtree.defaultSpreaderPipeline.worker
 //@   requires nn: ds != nil && ds.defaultSpreaderSimple != nil && ctx != nil && wg != nil
 //@   carries roots: grownChan($g)
 //@   carries errc: errChan
+//@   use lemma lemmaRawRangePrefix
 //@   ensures reported [C14]: wfail && !old(wfail) ==> errSent
-//@   modifies out, wfail, errSent, ctxDoneSeen
+//@   ensures text [C01]: wfail == old(wfail) && !errSent ==> out[ds.defaultSpreaderSimple.w] == old(out[ds.defaultSpreaderSimple.w]) ++ specRawRange(gcRecv, len(old(gcRecv)), len(gcRecv))
+//@   modifies out, wfail, errSent, ctxDoneSeen, gcRecv
 //@ loop gtree.defaultSpreaderPipeline.worker#1
 //@   invariant reported [C14]: wfail && !old(wfail) ==> errSent
+//@   invariant text [C01]: len(old(gcRecv)) <= len(gcRecv) && (wfail == old(wfail) && !errSent ==> out[ds.defaultSpreaderSimple.w] == old(out[ds.defaultSpreaderSimple.w]) ++ specRawRange(gcRecv, len(old(gcRecv)), len(gcRecv)))
 
 // dry run: the report of each root goes through one bufio.Writer; the stage requires a validating grower (C09: dry run
 // rejects what the real run rejects because of names)
@@ -193,14 +224,14 @@ func specLinesText(lines []string, i int) string {
 //@   requires validating [C09,C07]: g != nil ==> g.enabledValidation
 //@   carries errc: errChan
 //@   carries result0: errChan
-//@   modifies out, wfail, counter.n, spText, errSent, ctxDoneSeen
+//@   modifies out, wfail, counter.n, spText, errSent, ctxDoneSeen, gcRecv
 //@   after make: spText := ""
 // (functional clause, per goroutine: what this goroutine hands to the writer is, root by root, the dry-run report
 // specDryRoot of the roots it received - counters reset per root; spText accumulates what is owed, as on the simple route)
 //@ closure gtree.colorizeSpreaderPipeline.spread#1
 //@   requires nn: cs != nil && cs.colorizeSpreaderSimple != nil && colorizeOK(cs.colorizeSpreaderSimple) && ctx != nil
 //@   requires start: spText == ""
-//@   modifies out, wfail, counter.n, spText, errSent, ctxDoneSeen
+//@   modifies out, wfail, counter.n, spText, errSent, ctxDoneSeen, gcRecv
 //@   after spreadBranch: spText := spText ++ specDryRoot(cs.colorizeSpreaderSimple.fileColor, cs.colorizeSpreaderSimple.dirColor, cs.colorizeSpreaderSimple.fileConsiderer.extensions, arg0)
 //@ loop gtree.colorizeSpreaderPipeline.spread#1#1
 //@   invariant ok: colorizeOK(cs.colorizeSpreaderSimple) && bw != nil && bw.under == w
@@ -218,13 +249,13 @@ func specLinesText(lines []string, i int) string {
 //@   carries roots: grownChan($g)
 //@   carries errc: errChan
 //@   carries result0: errChan
-//@   modifies out, wfail, encTrace, encoders, errSent, ctxDoneSeen, stageSpread, stageWriter
+//@   modifies out, wfail, encTrace, encoders, errSent, ctxDoneSeen, gcRecv, stageSpread, stageWriter
 //@   ghostset stageSpread := f
 //@   ghostset stageWriter := w
 //@ applies formattedSpreadPipelineSpec to gtree.formattedSpreaderPipeline.spread[jsonNode], gtree.formattedSpreaderPipeline.spread[yamlNode], gtree.formattedSpreaderPipeline.spread[tomlNode]
 //@ contract formattedSpreadPipelineBody
 //@   requires nn: f != nil && f.encode != nil && f.formattedRoot != nil && ctx != nil
-//@   modifies out, wfail, encTrace, encoders, errSent, ctxDoneSeen
+//@   modifies out, wfail, encTrace, encoders, errSent, ctxDoneSeen, gcRecv
 //@   ensures once [C04]: encoders == old(encoders) + 1
 //@   ensures reported [C14]: wfail && !old(wfail) ==> errSent
 //@ applies formattedSpreadPipelineBody to gtree.formattedSpreaderPipeline.spread[jsonNode]#1, gtree.formattedSpreaderPipeline.spread[yamlNode]#1, gtree.formattedSpreaderPipeline.spread[tomlNode]#1
@@ -252,7 +283,7 @@ func specLinesText(lines []string, i int) string {
 //@   requires live [C02]: !ctxCancelled[ctx]
 //@   carries roots: grownChan($g)
 //@   carries result0: errChan
-//@   modifies out, wfail, encTrace, encoders, errSent, ctxDoneSeen, stageSpread, stageWriter
+//@   modifies out, wfail, encTrace, encoders, errSent, ctxDoneSeen, gcRecv, stageSpread, stageWriter
 //@   ghostset stageSpread := f
 //@   ghostset stageWriter := w
 
@@ -264,10 +295,10 @@ func specLinesText(lines []string, i int) string {
 //@   requires validating [C07]: g != nil ==> g.enabledValidation
 //@   carries errc: errChan
 //@   carries result0: errChan
-//@   modifies fsOps, fsFailed, errSent, mkSeen, ctxDoneSeen
+//@   modifies fsOps, fsFailed, errSent, mkSeen, ctxDoneSeen, gcRecv
 //@ closure gtree.defaultMkdirerPipeline.mkdir#1
 //@   requires nn: dm != nil && dm.defaultMkdirerSimple != nil && dm.defaultMkdirerSimple.fileConsiderer != nil && ctx != nil
-//@   modifies fsOps, fsFailed, errSent, mkSeen, ctxDoneSeen
+//@   modifies fsOps, fsFailed, errSent, mkSeen, ctxDoneSeen, gcRecv
 // mkSeen: the roots for which this worker has started to create entries
 //@ ghost var mkSeen []*Node
 // a worker reports a failed file-system operation and a root that already exists on its stage's error channel (C06: every
@@ -276,13 +307,15 @@ func specLinesText(lines []string, i int) string {
 //@   requires nn: dm != nil && dm.defaultMkdirerSimple != nil && dm.defaultMkdirerSimple.fileConsiderer != nil && ctx != nil && wg != nil
 //@   carries roots: grownChan($g)
 //@   carries errc: errChan
-//@   modifies fsOps, fsFailed, errSent, mkSeen, ctxDoneSeen
+//@   modifies fsOps, fsFailed, errSent, mkSeen, ctxDoneSeen, gcRecv
 //@   after makeDirectoriesAndFiles: mkSeen := mkSeen ++ seqof(arg0)
 //@   ensures reported [C06]: fsFailed && !old(fsFailed) ==> errSent
 //@   ensures quiet [C06]: fsOps != old(fsOps) && !errSent ==> fsFailed == old(fsFailed)
+//@   ensures every [C06]: !errSent ==> drop(mkSeen, len(old(mkSeen))) == drop(gcRecv, len(old(gcRecv)))
 //@   ensures fresh [C06]: forall k int :: {mkSeen[k]} len(old(mkSeen)) <= k && k < len(mkSeen) ==> mkSeen[k] != nil && !fsExistsAt(fpJoin2(dm.defaultMkdirerSimple.targetDir, specNodePath(mkSeen[k])))
 //@ loop gtree.defaultMkdirerPipeline.worker#1
 //@   invariant reported [C06]: fsFailed == old(fsFailed)
+//@   invariant every [C06]: len(old(gcRecv)) <= len(gcRecv) && len(old(mkSeen)) <= len(mkSeen) && (!errSent ==> drop(mkSeen, len(old(mkSeen))) == drop(gcRecv, len(old(gcRecv))))
 //@   invariant fresh [C06]: len(old(mkSeen)) <= len(mkSeen) && (forall k int :: {mkSeen[k]} len(old(mkSeen)) <= k && k < len(mkSeen) ==> mkSeen[k] != nil && !fsExistsAt(fpJoin2(dm.defaultMkdirerSimple.targetDir, specNodePath(mkSeen[k]))))
 
 // ---- verify stage (pipeline_tree_verifier.go)
@@ -293,10 +326,10 @@ func specLinesText(lines []string, i int) string {
 //@   requires validating [C07,C08]: g != nil ==> g.enabledValidation
 //@   carries errc: errChan
 //@   carries result0: errChan
-//@   modifies maps, errSent, vfSeen, ctxDoneSeen
+//@   modifies maps, errSent, vfSeen, ctxDoneSeen, gcRecv
 //@ closure gtree.defaultVerifierPipeline.verify#1
 //@   requires nn: dv != nil && dv.defaultVerifierSimple != nil && ctx != nil
-//@   modifies maps, errSent, vfSeen, ctxDoneSeen
+//@   modifies maps, errSent, vfSeen, ctxDoneSeen, gcRecv
 // a worker reports every root that does not match the directory on its stage's error channel (C08, per goroutine: vfSeen
 // collects the roots this worker has verified; as long as it has sent no error all of them match)
 //@ ghost var vfSeen []*Node
@@ -304,10 +337,12 @@ func specLinesText(lines []string, i int) string {
 //@   requires nn: dv != nil && dv.defaultVerifierSimple != nil && ctx != nil && wg != nil
 //@   carries roots: grownChan($g)
 //@   carries errc: errChan
-//@   modifies maps, errSent, ctxDoneSeen, vfSeen
+//@   modifies maps, errSent, ctxDoneSeen, gcRecv, vfSeen
 //@   after verifyRoot: vfSeen := vfSeen ++ seqof(arg0)
 //@   ensures mismatch [C08]: !errSent ==> (forall k int :: {vfSeen[k]} len(old(vfSeen)) <= k && k < len(vfSeen) ==> rootMatches(dv.defaultVerifierSimple, vfSeen[k]))
+//@   ensures every [C08]: !errSent ==> drop(vfSeen, len(old(vfSeen))) == drop(gcRecv, len(old(gcRecv)))
 //@ loop gtree.defaultVerifierPipeline.worker#1
+//@   invariant every [C08]: len(old(gcRecv)) <= len(gcRecv) && len(old(vfSeen)) <= len(vfSeen) && (!errSent ==> drop(vfSeen, len(old(vfSeen))) == drop(gcRecv, len(old(gcRecv))))
 //@   invariant mismatch [C08]: len(old(vfSeen)) <= len(vfSeen) && (!errSent ==> (forall k int :: {vfSeen[k]} len(old(vfSeen)) <= k && k < len(vfSeen) ==> rootMatches(dv.defaultVerifierSimple, vfSeen[k])))
 
 // ---- walk stage (pipeline_tree_walker.go): safety only. After a callback error a worker reports it and goes on with
@@ -320,16 +355,16 @@ func specLinesText(lines []string, i int) string {
 //@   carries roots: grownChan($g)
 //@   carries errc: errChan
 //@   carries result0: errChan
-//@   modifies cbTrace, cbFailed, cbLastErr, cbAfterFail, errSent, ctxDoneSeen
+//@   modifies cbTrace, cbFailed, cbLastErr, cbAfterFail, errSent, ctxDoneSeen, gcRecv
 //@ closure gtree.defaultWalkerPipeline.walk#1
 //@   requires nn: dw != nil && dw.defaultWalkerSimple != nil && ctx != nil
-//@   modifies cbTrace, cbFailed, cbLastErr, cbAfterFail, errSent, ctxDoneSeen
+//@   modifies cbTrace, cbFailed, cbLastErr, cbAfterFail, errSent, ctxDoneSeen, gcRecv
 //@ func gtree.defaultWalkerPipeline.worker
 //@   requires nn: dw != nil && dw.defaultWalkerSimple != nil && ctx != nil && wg != nil
 //@   param callback follows walkCallback
 //@   carries roots: grownChan($g)
 //@   carries errc: errChan
-//@   modifies cbTrace, cbFailed, cbLastErr, cbAfterFail, errSent, ctxDoneSeen
+//@   modifies cbTrace, cbFailed, cbLastErr, cbAfterFail, errSent, ctxDoneSeen, gcRecv
 
 // ---- the tree (pipeline_tree.go)
 // pipelineTreeOK(t, cfg): t is the treePipeline that newTreePipeline builds for cfg.
@@ -347,11 +382,11 @@ func specLinesText(lines []string, i int) string {
 //@ func gtree.treePipeline.handlePipelineErr
 //@   requires nn: ctx != nil
 //@   carries echs: errChan
-//@   modifies errRecv, ctxDoneSeen
+//@   modifies errRecv, ctxDoneSeen, gcRecv
 //@   ensures seen [C14,C12]: result == nil ==> errRecv == old(errRecv)
 //@ loop gtree.treePipeline.handlePipelineErr#loop1
 //@   invariant grp: eg != nil && ectx != nil && (!eg.failed ==> errRecv == old(errRecv))
 //@ closure gtree.treePipeline.handlePipelineErr#1
 //@   implements egTask
-//@   modifies ctxDoneSeen
+//@   modifies ctxDoneSeen, gcRecv
 //@   requires idx: 0 <= i && i < len(echs) && ectx != nil
